@@ -36,6 +36,12 @@ class CaseOutcome:
 def _worker_main(conn, run_fn, indices, chunk):
     # child
     try:
+        # the library prints from inside some constructors: keep the check's stdout for verdict lines only
+        _dn = os.open(os.devnull, os.O_WRONLY)
+        os.dup2(_dn, 1)
+    except Exception:
+        pass
+    try:
         # a crashing case is attributed by the parent; keep the child's own dump out of the check's output
         _fh = open(os.environ.get("VERIF_FAULT_LOG", os.devnull), "a")
         faulthandler.enable(file=_fh, all_threads=False)
